@@ -28,7 +28,7 @@ SPEC = dict(
          "drop / SampleRate / deterministic or dynamic downstream sampler; a dynamic sampler with 0-6 key fields incl. root. fields, "
          "UseTraceLength on/off) and 1-3 logical traces (1-4 spans, 0-4 fields drawn from a small palette of numbers around the type "
          "boundaries 127/128, 255/256, 65535/65536, 2^24, 2^31, 10^6 +-1, negative numbers, dyadic fractions, strings, booleans, null), "
-         "each evaluated in 3-7 variants: the reference encoding, pure permutations, and re-encodings with a per-span choice of "
+         "in 30% of the cases rule r0 is a condition over 2-3 Fields mixing a plain and a root.-prefixed name (any order, also in random conditions) and the first trace has a root with a non-matching root field, spans lacking the plain field and exactly one span whose plain field matches, permuted more often; each trace is evaluated in 3-7 variants: the reference encoding, pure permutations, and re-encodings with a per-span choice of "
          "ingestion path (JSON /1/events, JSON /1/batch, msgpack /1/events, msgpack /1/batch, OTLP protobuf through husky; each also "
          "forwarded to a peer through the real batch re-encoding) and a per-field choice of wire type (JSON number in three spellings; "
          "msgpack int / uint family in minimal or 64-bit width, float32 / float64, str / bin; OTLP int / double), by profile: safe "
